@@ -190,7 +190,15 @@ class World:
             x = self.make(a["r"], a["how"])
             return outcome(lambda: s.add(x))
         if op == "delete":
-            return outcome(lambda: s.deleteRule(a["i"]))
+            # the same rule named in the three documented ways: index, index from the end, the rule object
+            n, i = len(s.cssRules), a["i"]
+            self.ndel = getattr(self, "ndel", 0) + 1
+            if i < n and self.ndel % 3 == 1:
+                return outcome(lambda: s.deleteRule(i - n))
+            if i < n and self.ndel % 3 == 2:
+                obj = s.cssRules[i]
+                return outcome(lambda: s.deleteRule(obj))
+            return outcome(lambda: s.deleteRule(i))
         if op == "settext":
             if "text" in a:
                 return outcome(lambda: setattr(s, "cssText", a["text"]))
@@ -222,7 +230,14 @@ class World:
                 return "IndexSizeErr", None
             cont = s.cssRules[a["j"]]
             if op == "kiddelete":
-                return outcome(lambda: cont.deleteRule(a["i"]))
+                nk, i = len(getattr(cont, "cssRules", ())), a["i"]
+                self.ndel = getattr(self, "ndel", 0) + 1
+                if i < nk and self.ndel % 3 == 1:
+                    return outcome(lambda: cont.deleteRule(i - nk))
+                if i < nk and self.ndel % 3 == 2:
+                    obj = cont.cssRules[i]
+                    return outcome(lambda: cont.deleteRule(obj))
+                return outcome(lambda: cont.deleteRule(i))
             how = "text" if (a["j"] + a.get("i", 0)) % 2 == 0 else "object"
             x = kid_text(a["c"]) if how == "text" else kid_object(a["c"])
             if how == "object":
